@@ -1297,9 +1297,10 @@ impl Options {
             if cfg!(feature = "power-of-two") && exp < 13 {
                 // 11 for the exponent digits in binary, 1 for the sign, 1 for the symbol
                 count += 13;
-            } else if exp < 5 {
-                // 3 for the exponent digits in decimal, 1 for the sign, 1 for the symbol
-                count += 5;
+            } else if exp < 12 {
+                // 3 for the exponent digits in decimal, 1 for the sign, 1 for the symbol,
+                // but the integer writer needs room for any 32-bit exponent (10 digits).
+                count += 12;
             } else {
                 // More leading or trailing zeros than the exponent digits.
                 count += exp;
@@ -1330,11 +1331,9 @@ impl Options {
             //      assume it's a lot higher, and go with 64.
             64
         };
-        let digits = if let Some(max_digits) = self.max_significant_digits() {
-            min!(formatted_digits, max_digits.get())
-        } else {
-            formatted_digits
-        };
+        // NOTE: All the significant digits are written before they are truncated
+        // to `max_significant_digits`, so fewer digits do not need less space.
+        let digits = formatted_digits;
         let digits = if let Some(min_digits) = self.min_significant_digits() {
             max!(digits, min_digits.get())
         } else {
